@@ -226,6 +226,41 @@ def F21():
     return orig == rep, (t, orig, rep)
 
 
+def F22():
+    """C19.R6: a deep copy of a merged tree re-derived the inherited flags of the children and merged differently."""
+    import copy
+    import awesomeyaml as ay
+    from awesomeyaml.builder import Builder
+
+    def build(*docs):
+        b = Builder()
+        for d in docs:
+            b.add_source(d, raw_yaml=True)
+        return b.build()
+
+    def over(base, t):
+        b = Builder()
+        b.add_source(base, raw_yaml=True)
+        b.stages.append(t)
+        return _plain(ay.Config(b.build()))
+    docs = ["a: [[1, 2], [3]]", "a: !merge [[9]]"]
+    base = "a: [[5, 6, 7], [8, 8]]"
+    orig = _try(lambda: over(base, build(*docs)))
+    cp = _try(lambda: over(base, copy.deepcopy(build(*docs))))
+    return orig == cp, (orig, cp)
+
+
+def K8():
+    """C19.R2 known finding: a tuple node cannot be deep-copied or pickled."""
+    import copy
+    import pickle
+    from awesomeyaml.nodes.tuple import ConfigTuple
+    t = ConfigTuple((1, 2))
+    a = _try(lambda: tuple(copy.deepcopy(t)))
+    b = _try(lambda: tuple(pickle.loads(pickle.dumps(t))))
+    return a == (1, 2) and b == (1, 2), (a, b)
+
+
 def K1():
     """C12.R1 known finding: namespace cached in sys.modules across builds."""
     code = ("import awesomeyaml as ay\n"
@@ -298,7 +333,7 @@ def K6():
     return out == str(sum(range(130))), (rc, out, err[-120:])
 
 
-ALL = ['F%d' % i for i in range(1, 22)] + ['K1', 'K2', 'K3', 'K4', 'K5', 'K6', 'K7']
+ALL = ['F%d' % i for i in range(1, 23)] + ['K1', 'K2', 'K3', 'K4', 'K5', 'K6', 'K7', 'K8']
 
 if __name__ == '__main__':
     if len(sys.argv) == 3 and sys.argv[1] == '--one':
